@@ -234,3 +234,9 @@ def check(cx):
                "COMMIT record into the redo set unconditionally, redo consults all operation maps, open() always recovers", floor=8)
     cx.include(c08, {"C08.8", "C08.1"}, "C01.8", "shared with C08.8/C08.1: recovery decodes the logged images raw (never through a "
                "snapshot) and discards the log only by a checkpoint after commit", floor=8)
+
+    # ---- C01.10 (construct shared with C17.3) -----------------------------------------------------------------------
+    from . import c17
+    cx.include(c17, {"C17.3"}, "C01.10", "shared with C17.3: records are placed so that the log reads back in append order (block "
+               "zero takes records only while it is the last block); a COMMIT read back before its BEGIN makes recovery undo an "
+               "acknowledged transaction", floor=5)
